@@ -106,6 +106,7 @@ func (eng *Engine) verifyFunc(fn *ssa.Function, fc *FuncContract, props []string
 	}
 	res = &FuncResult{Fn: fn, Contract: fc, Scenario: scenName}
 	e := eng.newExec(fn, fc, props)
+	e.sct = sct
 	res.Mode = e.mode
 	defer func() {
 		if r := recover(); r != nil {
@@ -124,7 +125,7 @@ func (eng *Engine) verifyFunc(fn *ssa.Function, fc *FuncContract, props []string
 	if fc != nil {
 		for _, cl := range fc.Lists["count_calls"] {
 			for _, n := range strings.Fields(cl.Expr) {
-				e.ghostGet(st, n+"_calls", tInt, e.sc.idxLit(0))
+				e.ghostGet(st, strings.ReplaceAll(n, ".", "_")+"_calls", tInt, e.sc.idxLit(0))
 			}
 		}
 	}
@@ -133,6 +134,7 @@ func (eng *Engine) verifyFunc(fn *ssa.Function, fc *FuncContract, props []string
 	// requires
 	if fc != nil {
 		for _, cl := range append(append([]Clause(nil), fc.Requires...), fc.Assumes...) {
+			cl.Expr = sct.subst(cl.Expr)
 			c := e.specEnv(st, nil)
 			c.where = fmt.Sprintf("%s:%d", cl.File, cl.Line)
 			t, err := c.evalBool(cl.Expr)
@@ -214,9 +216,10 @@ func (eng *Engine) verifyFunc(fn *ssa.Function, fc *FuncContract, props []string
 			continue
 		}
 		for ci, cl := range fc.Ensures {
-			if cl.Variant != "" && cl.Variant != sct.name {
+			if cl.Variant != "" && !sct.matches(cl.Variant) {
 				continue
 			}
+			cl.Expr = sct.subst(cl.Expr)
 			c := e.specEnv(ex.st, entry)
 			c.where = fmt.Sprintf("%s:%d", cl.File, cl.Line)
 			c.resName = resNames
@@ -247,7 +250,7 @@ func (eng *Engine) verifyFunc(fn *ssa.Function, fc *FuncContract, props []string
 			where := fmt.Sprintf("%s:%d", cl.File, cl.Line)
 			if cs, ok := fc.Flags["cases"]; ok && ex.kind == exitReturn {
 				// cases <lo> <hi> <expr>: one obligation per value of expr, plus completeness
-				parts := strings.SplitN(cs, " ", 3)
+				parts := strings.SplitN(sct.subst(cs), " ", 3)
 				lo, _ := strconv.Atoi(parts[0])
 				hi, _ := strconv.Atoi(parts[1])
 				cc := e.specEnv(ex.st, entry)
@@ -557,6 +560,7 @@ func (e *Exec) callByContract(st *State, c *FuncContract, callee *ssa.Function, 
 		for _, n := range strings.Fields(cl.Expr) {
 			d := e.sc.fresh("calls."+n, e.sc.idx())
 			e.sc.assert(e.le(e.sc.idxLit(0), d))
+			n = strings.ReplaceAll(n, ".", "_")
 			deltas[n] = d
 			vars[n+"_calls"] = Val{T: tInt, S: d}
 		}
@@ -635,13 +639,31 @@ func (e *Exec) callByContract(st *State, c *FuncContract, callee *ssa.Function, 
 		sp = e.sc.fresh("sp."+sanitize(name), "Bool")
 	}
 	for _, cl := range c.Ensures {
+		if cl.Variant != "" && c.variantExpr(cl.Variant) == "" {
+			// clause of a type scenario of the callee: usable when the caller is being verified
+			// under a matching scenario and passes its scenario parameter through unchanged
+			if !e.scenarioPassedThrough(c, callee, args) || !e.sct.matches(cl.Variant) {
+				if os.Getenv("GOVC_DEBUG_VARS") != "" {
+					fmt.Fprintf(os.Stderr, "skip scenario clause %q: passthrough=%v match=%v\n", cl.Variant, e.scenarioPassedThrough(c, callee, args), e.sct.matches(cl.Variant))
+				}
+				continue
+			}
+			cl.Expr = e.sct.subst(cl.Expr)
+			cl.Variant = ""
+		} else if cl.Variant == "" {
+			cl.Expr = e.sct.subst(cl.Expr)
+		}
+		if strings.Contains(cl.Expr, "$T") || strings.Contains(cl.Expr, "$E") {
+			continue
+		}
 		x := mk(st, pre)
 		x.results = results
 		x.soft = sp
 		x.where = fmt.Sprintf("%s:%d", cl.File, cl.Line)
 		t, err := x.evalBool(cl.Expr)
 		if err != nil {
-			if _, isAtomic := c.Flags["atomic"]; isAtomic && strings.Contains(err.Error(), "unknown identifier") {
+			_, isAtomic := c.Flags["atomic"]
+			if (isAtomic || len(c.Lists["count_calls"]) > 0) && strings.Contains(err.Error(), "unknown identifier") {
 				// clause about the callee's own ghost record (CAS/Add bookkeeping): not visible to callers
 				continue
 			}
@@ -1178,4 +1200,79 @@ func (e *Exec) useHint(c *specCtx, st *State, src string) error {
 	e.assume(st, t)
 	e.libUsed["axiom:"+name] = true
 	return nil
+}
+
+// matches: does a clause tag (@name) select this scenario? Exact scenario / variant
+// name, or a class of scenario types: signed, unsigned, int (any integer), ptr.
+func (sct scenarioT) matches(tag string) bool {
+	if tag == sct.name {
+		return true
+	}
+	for _, t := range sct.types {
+		u := t.Underlying()
+		if p, ok := u.(*types.Pointer); ok {
+			if tag == "ptr" {
+				return true
+			}
+			u = p.Elem().Underlying()
+			if !strings.HasPrefix(tag, "ptr-") {
+				return false
+			}
+			tag = strings.TrimPrefix(tag, "ptr-")
+		}
+		if b, ok := u.(*types.Basic); ok {
+			if w, signed, isInt := intWidth(b); isInt {
+				switch tag {
+				case "int":
+					return true
+				case "signed":
+					return signed
+				case "unsigned":
+					return !signed
+				case fmt.Sprintf("w%d", w):
+					return true
+				}
+			}
+		}
+	}
+	return false
+}
+
+// subst replaces $T (the scenario type) and $E (its pointee, for pointer scenarios).
+func (sct scenarioT) subst(expr string) string {
+	for _, t := range sct.types {
+		q := func(p *types.Package) string {
+			if p.Path() == "github.com/gocql/gocql" {
+				return ""
+			}
+			return p.Name()
+		}
+		expr = strings.ReplaceAll(expr, "$T", types.TypeString(t, q))
+		if p, ok := t.Underlying().(*types.Pointer); ok {
+			expr = strings.ReplaceAll(expr, "$E", types.TypeString(p.Elem(), q))
+		}
+	}
+	return expr
+}
+
+// scenarioPassedThrough: the callee's scenario parameter receives the caller's
+// scenario parameter (same value), so the dynamic type assumed for the caller
+// is the callee's too.
+func (e *Exec) scenarioPassedThrough(c *FuncContract, callee *ssa.Function, args []Val) bool {
+	if callee == nil || len(c.Scenario) == 0 || len(e.sct.types) == 0 {
+		return false
+	}
+	for cp := range c.Scenario {
+		for i, p := range callee.Params {
+			if p.Name() != cp || i >= len(args) {
+				continue
+			}
+			for myp := range e.sct.types {
+				if mine, ok := e.params[myp]; ok && mine.S == args[i].S && mine.S != "" {
+					return true
+				}
+			}
+		}
+	}
+	return false
 }
